@@ -354,6 +354,17 @@ def rewrite(draw, case, kinds, n_max=3):
                     nd['values'][k] = _mutate_deep(draw, old)
                 else:
                     nd['values'][k] = draw(gen._pv())
+                # (default elision compares with Python ==: a value is either type-strictly a default or unequal to it)
+                from tcv.runtime import canon_param
+                for m_ in prog['modules']:
+                    for p_ in gen.param_keys_of_module(m_).get(k, []):
+                        if 'default' in p_:
+                            try:
+                                if nd['values'][k] == p_['default']['v'] and canon_param(nd['values'][k]) != canon_param(
+                                        p_['default']['v']):
+                                    nd['values'][k] = copy.deepcopy(p_['default']['v'])
+                            except Exception:
+                                pass
                 case['changed_key'] = k
         elif kind == 'chg_obj_arg':
             cands = [(fi, pn, nd, k) for fi, pn, nd in _nodes_with_values(case) for k in nd['values']
@@ -439,7 +450,16 @@ def rewrite(draw, case, kinds, n_max=3):
                 mi, p = draw(st.sampled_from(cands))
                 for fi, pn, nd in _all_nodes(case):
                     if nd['module'] == mi:
-                        nd['values'][p.get('cfg') or p['name']] = _mutate_deep(draw, p['default']['v'])
+                        nv = _mutate_deep(draw, p['default']['v'])
+                        # default elision compares with Python ==: [3.0] "is" the default [3].  Such look-alikes are kept
+                        # out (DESIGN 3.3): a value is either type-strictly the default or unequal to it
+                        from tcv.runtime import canon_param
+                        try:
+                            if nv == p['default']['v'] and canon_param(nv) != canon_param(p['default']['v']):
+                                nv = [copy.deepcopy(p['default']['v']), 'moved']
+                        except Exception:
+                            pass
+                        nd['values'][p.get('cfg') or p['name']] = nv
         elif kind == 'swap_mounts':
             # two mounts of one config node trade places: what was mounted `as left` is now `as right` and vice versa
             cands = [nd for fi, pn, nd in _all_nodes(case)
